@@ -427,6 +427,27 @@ func Run(r *vk.Run) {
 						if len(reached) == 0 || !reached[0] {
 							break
 						}
+						// a second crash, inside the production step that recovers from the first one (for the first
+						// production crash of a script only: the recovery re-uses or rebuilds the interrupted block)
+						if kind == "crash-prod" && seenProd == 1 {
+							next := -1
+							for q := pos + 1; q < len(c.Ops); q++ {
+								if c.Ops[q] == "prod" {
+									next = q
+									break
+								}
+							}
+							for k2 := 0; next >= 0 && k2 < 12; k2++ {
+								c2 := c
+								c2.Ops = append(append(append([]string{}, c.Ops[:next]...), fmt.Sprintf("crash-prod:%d", k2)), c.Ops[next+1:]...)
+								var reached2 []bool
+								r.Guard(c2, func() { reached2 = run(r, c2) })
+								r.Hit("crash-during-recovery")
+								if len(reached2) < 2 || !reached2[1] {
+									break
+								}
+							}
+						}
 					}
 				}
 			}
